@@ -465,6 +465,38 @@ fn register_inner(ops: &mut Vec<Op>) {
         })
         .weight(0.25),
     );
+    // posit <-> posit: From / Into and the two inherent spellings (to_pX of the source,
+    // from_pX of the target) must agree
+    macro_rules! pp_spell {
+        ($S:ty, $SF:expr, $sname:literal, $D:ty, $dname:literal, $to:ident, $from:ident) => {
+            ops.push(
+                Op::new(
+                    format!("{}::spell::Into<{}> vs {}", $sname, $dname, stringify!($to)),
+                    &["C17"],
+                    &[Kind::Pat($SF)],
+                    OutKind::Raw,
+                    |x, _, _| {
+                        let s = <$S as PT>::fb(x);
+                        let a: $D = s.into();
+                        let b = <$D as From<$S>>::from(s);
+                        (a.tb() << 32) | b.tb()
+                    },
+                )
+                .slow(|x, _, _| {
+                    let s = <$S as PT>::fb(x);
+                    let a = s.$to();
+                    let b = <$D>::$from(s);
+                    Some((a.tb() << 32) | b.tb())
+                }),
+            );
+        };
+    }
+    pp_spell!(P8E0, crate::val::P8, "P8E0", P16E1, "P16E1", to_p16e1, from_p8e0);
+    pp_spell!(P8E0, crate::val::P8, "P8E0", P32E2, "P32E2", to_p32e2, from_p8e0);
+    pp_spell!(P16E1, crate::val::P16, "P16E1", P8E0, "P8E0", to_p8e0, from_p16e1);
+    pp_spell!(P16E1, crate::val::P16, "P16E1", P32E2, "P32E2", to_p32e2, from_p16e1);
+    pp_spell!(P32E2, crate::val::P32, "P32E2", P8E0, "P8E0", to_p8e0, from_p32e2);
+    pp_spell!(P32E2, crate::val::P32, "P32E2", P16E1, "P16E1", to_p16e1, from_p32e2);
     quire_spell::<Q8E0>(ops);
     quire_spell::<Q16E1>(ops);
     quire_spell::<Q32E2>(ops);
